@@ -30,6 +30,7 @@ from django_components.app_settings import ContextBehavior, app_settings
 from django_components.context import _COMPONENT_CONTEXT_KEY, _INJECT_CONTEXT_KEY_PREFIX
 from django_components.node import BaseNode
 from django_components.perfutil.component import component_context_cache
+from django_components.perfutil.provide import register_provide_reference
 from django_components.util.component_highlight import apply_component_highlight
 from django_components.util.context import snapshot_context
 from django_components.util.exception import add_slot_to_error_message
@@ -575,6 +576,13 @@ class SlotNode(BaseNode):
         for key, value in context.flatten().items():
             if key.startswith(_INJECT_CONTEXT_KEY_PREFIX):
                 extra_context[key] = value
+
+        # The fill may render the slot's default content (via the `default` variable) much later - e.g. when it
+        # passes it on to another component, which is rendered only after the `{% provide %}` tags around
+        # this slot have ended. So the component that owns the slot keeps what was provided here alive
+        # until it is fully rendered (including its children).
+        if slot_fill.is_filled:
+            register_provide_reference(context, component_id)
 
         slot_ref = SlotRef(self, context)
 
